@@ -5,6 +5,8 @@ import YV.Model.XTables
 import YV.Gen.XPath
 import YV.Gen.Status
 import YV.Proofs.XReject
+import YV.Proofs.XLeafref
+import YV.Proofs.XText
 namespace YV.C04
 open YV YV.X YV.XL YV.XP
 
@@ -57,5 +59,51 @@ theorem C04_dblslash_token (strict : Bool) (pm : PfxMap) (s : LexSt) (h : (next 
   simp [h]
 example : bad (.ch (chr '@')) = true ∧ bad .dblslash = true ∧ bad (.axisname []) = true ∧ bad (.nodetype []) = true := by
   simp [bad]
+
+/-! ### the leafref path grammar -/
+
+/-- **C04 (leafref: exactly RFC 6020 path-arg).**  The leafref parser accepts a token list iff it is — up to the
+    end-of-input token — the token sequence of a tree of the RFC 6020 grammar (`LPath`: absolute-path =
+    1*("/" (node-identifier *path-predicate)); relative-path = 1*(".." "/") descendant-path; descendant-path =
+    node-identifier [*path-predicate absolute-path]; path-predicate = "[" node-identifier "=" function "(" ")" "/"
+    1*(".." "/") *(node-identifier "/") node-identifier "]"), for every token list: any number of steps,
+    predicates and "..", and nothing else.  (That the function is `current` is the lexer's: the leafref lexer
+    makes a function token of no other name.) -/
+theorem C04_leafref_exact (toks : List LexedTok) :
+    (∃ s', parseLeafrefToks toks = .ok s') ↔
+      ∃ (p : LPath) (rest : List Tok), toks.map (·.tok) = p.toks ++ rest ∧ rest.headD .eof = .eof := by
+  constructor
+  · rintro ⟨s', h⟩
+    obtain ⟨p, rest, h1, h2, _⟩ := parse_sound toks s' h
+    exact ⟨p, rest, h1, h2⟩
+  · rintro ⟨p, rest, h1, h2⟩
+    obtain ⟨s', h, _⟩ := parse_complete p toks rest h1 h2
+    exact ⟨s', h⟩
+
+/-- … and the program of an accepted path is the one the grammar actions emit for that tree -/
+theorem C04_leafref_program (toks : List LexedTok) (s' : PSt) (h : parseLeafrefToks toks = .ok s') :
+    ∃ p : LPath, s'.out.reverse = p.code ++ [.evalLocPath, .store] ∧
+      ∃ rest, toks.map (·.tok) = p.toks ++ rest := by
+  obtain ⟨p, rest, h1, _, h3⟩ := parse_sound toks s' h
+  exact ⟨p, h3, rest, h1⟩
+
+/-- non-vacuity: ../../a[k = current()/../b]/c  is a tree -/
+def exLref : LPath :=
+  .rel 1 ([], [97]) (some ([⟨([], [107]), .current, 0, [], ([], [98])⟩], ⟨([], [99]), []⟩, []))
+example : exLref.toks =
+    [.dotdot, .ch (chr '/'), .dotdot, .ch (chr '/'), .nametest [] [97], .ch (chr '['), .nametest [] [107], .eq,
+     .func .current, .ch (chr '('), .ch (chr ')'), .ch (chr '/'), .dotdot, .ch (chr '/'), .nametest [] [98],
+     .ch (chr ']'), .ch (chr '/'), .nametest [] [99]] := by
+  simp [exLref, LPath.toks, upsToks, predsToks, LPred.toks, namesToks, LStep.toks, restToks, QN.tok]
+
+/-- **C04 (must / when: the operator fragment is accepted).**  Every text of the fragment of `C03_text_to_program`
+    compiles: `build` returns a machine, not an error. -/
+theorem C04_fragment_accepted (e : PE) (hf : e.fits 0) (hn : e.lexable) (items : List Item)
+    (hi : items.map (·.tok) = e.toks) (hok : ∀ i ∈ items, i.ok) (hgl : glued items) (lead : List Rune)
+    (hl : ∀ x ∈ lead, isWS x = true) (pm : PfxMap)
+    (hpf : ∀ i ∈ items, ∀ p l, i.tok = .nametest p l → pfxOk pm p = true) (fixed : Bool) (bs : List Nat)
+    (hbs : (decode bs).map (·.cp) = lead ++ renderX items) :
+    ∃ prog, build false fixed .expr pm bs = .machine prog :=
+  ⟨_, text_to_program e hf hn items hi hok hgl lead hl pm hpf fixed bs hbs⟩
 
 end YV.C04
